@@ -98,6 +98,8 @@ func lineKind(l string) string {
 		return "rl"
 	case strings.HasPrefix(l, "q "):
 		return "q"
+	case strings.HasPrefix(l, "inv "):
+		return "inv"
 	}
 	return "other"
 }
